@@ -11,8 +11,11 @@ what the (reused, per-worker) triangulator object did before, because
          thread-local triangulator mid-use;
   C10.5  the triangulator handed to TriangulateIdxHalfedges is obtained from PolygonTriangulatorStore::local()
          in the function that uses it (not hoisted out of the task), and the store is per-thread in TBB builds.
-Triangle count, orientation, area, edge pairing, the convex fast path and termination are decided by coordinates
-and are not decided here."""
+  C10.6  degenerate contours: unsigned size arithmetic and begin() dereferences are size-guarded;
+  C10.7  the convexity test that gates the allowConvex fast path turn-tests as many corners as the contour has
+         vertices (its corner loop is extracted and evaluated for every contour size 3..200).
+Triangle count, orientation, area, edge pairing, the turn test's own arithmetic and termination are decided by
+coordinates and are not decided here."""
 import tree as T
 import cfg as C
 from db import AnalysisBroken
@@ -498,6 +501,112 @@ def rule_degenerate(chk, db, cfgname):
     chk.count('c10.6.size_sensitive_sites', n)
 
 
+def rule_corner_coverage(chk, db, cfgname):
+    chk.rule('C10.7', 'the result does not depend on the allowConvex fast path: the convexity test that opens the fast '
+             'path applies its turn test (determinant2x2 of consecutive edges) to as many corners as the contour has '
+             'vertices - the trip count of its corner loop (start, continuation test, step taken from the source and '
+             'evaluated for every contour size 3..200) times the turn tests per trip, plus the turn tests made once per '
+             'contour, is at least the contour size; an untested corner lets a reflex contour take the convex path')
+    from c16 import _ieval, _beval, _Undef
+    fs = [f for f in db.functions.values() if f.get('blocks') and f['file'] == 'src/polygon.cpp' and
+          T.basename(f['name']).split('::')[-1] == 'IsConvex' and '::Vert::' not in f['name'] and
+          'EarClip' not in f['name']]
+    if not fs:
+        raise AnalysisBroken('C10.7: the contour convexity test IsConvex is no longer in src/polygon.cpp')
+    n = 0
+    for f in fs:
+        g = C.Cfg(f)
+        loops = g.loops()
+        sites = []
+        for b in f['blocks']:
+            for e in b['ev']:
+                if e.get('k') == 'call' and T.short(e.get('fn', '')) == 'determinant2x2':
+                    sites.append((b['id'], e.get('ln')))
+        sites = sorted(set(sites))
+        if not sites:
+            raise AnalysisBroken('C10.7: %s has no determinant2x2 turn test' % f['name'])
+        nest = sorted(loops.items(), key=lambda kv: len(kv[1]))
+        inner = next(((h, body) for h, body in nest if any(bid in body for bid, _ in sites)), None)
+        if inner is None:
+            raise AnalysisBroken('C10.7: the turn test of %s is not inside a loop' % f['name'])
+        head, body = inner
+        per_trip = len([s for s in sites if s[0] in body])
+        outer = next(((h, bb) for h, bb in nest if len(bb) > len(body) and body <= bb), None)
+        once = len([s for s in sites if s[0] not in body and (outer is None or s[0] in outer[1])])
+        cond, _ = C.branch_cond(g.blocks[head])
+        inits, steps = {}, []
+        for bb in f['blocks']:
+            for ee in bb['ev']:
+                if ee.get('k') == 'decl':
+                    for v in ee['vars']:
+                        if isinstance(v.get('init'), dict) and v.get('d'):
+                            inits[v['d']] = v['init']
+                if bb['id'] in body:
+                    if ee.get('k') == 'un' and ee.get('op') in ('++', '--') and T.strip(ee['e']).get('k') == 'var':
+                        steps.append((T.strip(ee['e']), 1 if ee['op'] == '++' else -1))
+                    elif ee.get('k') == 'bin' and ee.get('op') in ('+=', '-=') and T.strip(ee['l']).get('k') == 'var' \
+                            and T.strip_copy(ee['r']).get('k') == 'int':
+                        steps.append((T.strip(ee['l']), (1 if ee['op'] == '+=' else -1) * int(ee['r'].get('v', 0))))
+        range_for = cond is not None and T.strip_copy(cond).get('k') == 'call' and \
+            T.short(T.strip_copy(cond).get('fn', '')) == 'operator!=' and '__begin' in T.pstr(cond)
+        cvars = {y['d'] for y in T.walk(cond) if isinstance(y, dict) and y.get('k') == 'var' and y.get('d')} \
+            if cond is not None else set()
+        steps = [s for s in steps if s[0].get('d') in cvars]
+        bad = None
+        symbols = set()
+        if range_for:
+            how = 'range-for over the contour: one trip per vertex'
+            trips_of = lambda N: N
+        elif cond is None or len(steps) != 1 or steps[0][0].get('d') not in inits:
+            raise AnalysisBroken('C10.7: the corner loop of %s at line %s has no recognisable counter '
+                                 '(start/continuation test/step)' % (f['name'], sites[0][1]))
+        else:
+            iv, step = steps[0]
+            start = inits.pop(iv['d'])
+            how = '%s = %s; while %s; step %+d' % (iv['n'], T.pstr(start)[:20], T.pstr(cond)[:40], step)
+
+            def trips_of(N):
+                def sym(text):
+                    symbols.add(text)
+                    return N
+                env = {iv['d']: _ieval(start, {}, inits, sym)}
+                it = 0
+                while _beval(cond, env, inits, sym):
+                    it += 1
+                    if it > 5000:
+                        return None
+                    env[iv['d']] += step
+                return it
+        try:
+            for N in range(3, 201):
+                t = trips_of(N)
+                if t is None:
+                    bad = (N, 'the corner loop does not terminate')
+                    break
+                if t * per_trip + once < N:
+                    bad = (N, 'only %d of its %d corners are tested (%d trips x %d + %d)' % (
+                        t * per_trip + once, N, t, per_trip, once))
+                    break
+        except _Undef as u:
+            raise AnalysisBroken('C10.7: the corner loop arithmetic of %s is outside the evaluated fragment (%s)'
+                                 % (f['name'], u))
+        if not range_for and len(symbols) != 1:
+            raise AnalysisBroken('C10.7: the corner loop of %s depends on %d free quantities %s - the contour size '
+                                 'cannot be identified' % (f['name'], len(symbols), sorted(symbols)[:4]))
+        n += 1
+        ok = bad is None
+        chk.obligation(ok, {'function': f['name'][:60], 'turn tests': ['line %s' % s[1] for s in sites],
+                            'corner loop': how, 'contour size': sorted(symbols)[0] if symbols else 'range of the loop',
+                            'tests per trip': per_trip, 'tests once per contour': once, 'sizes evaluated': '3..200',
+                            'counter-example': bad})
+        if not ok:
+            chk.violation('C10.7', f, 'corner loop leaves a corner of the contour untested',
+                          'for a contour of %d vertices %s (loop: %s): a contour whose only reflex or degenerate corner '
+                          'is the untested one is reported convex and triangulated by the fan path, so the result '
+                          'depends on allowConvex' % (bad[0], bad[1], how), line=sites[0][1], cfg=cfgname)
+    chk.count('c10.7.convexity_tests', n)
+
+
 def main(chk, tier):
     import db as D
     configs = ['seq', 'par'] if tier == 'quick' else ['seq', 'par', 'seq-debug', 'par-debug']
@@ -510,6 +619,7 @@ def main(chk, tier):
         rule_statics(chk, db, cfgname)
         rule_store(chk, db, cfgname)
         rule_degenerate(chk, db, cfgname)
+        rule_corner_coverage(chk, db, cfgname)
         if cfgname.startswith('par'):
             rule_isolate(chk, db, cfgname)
     n = len(configs)
@@ -517,11 +627,13 @@ def main(chk, tier):
     chk.floor('c10.2.triangulate_bodies', n)
     chk.floor('c10.6.size_sensitive_sites', 3 * n)
     chk.floor('c10.5.triangulator_uses', n)
+    chk.floor('c10.7.convexity_tests', n)
     chk.floor('c10.4.tbb_sites', n // 2)
     return chk.finish(
         'Decides the reuse-independence clause of C10 for the per-worker EarClip triangulator: Reset completeness '
         'and dominance, absence of static state, isolation of nested TBB regions, and per-task acquisition of the '
-        'thread-local triangulator. Triangle count, orientation, area, edge pairing, the convex fast path and '
-        'termination are coordinate dependent and not decided.',
+        'thread-local triangulator; size guards for degenerate contours; and corner coverage of the convexity test '
+        'that gates the allowConvex fast path. Triangle count, orientation, area, edge pairing, the turn test\'s '
+        'own arithmetic and termination are coordinate dependent and not decided.',
         assumptions=['clear()/assignment restores the initial abstract state of a standard container (capacity is '
                      'not observable)', 'tbb::this_task_arena::isolate prevents stealing of outer tasks (TBB contract)'])
